@@ -116,8 +116,8 @@ def main(tier, seed):
     chk.set('rule', 'every function registered through Addfunc x every tuple of the per-position lattice x mode {value, '
             'derivs, derivs+hes} x dig configuration {integer positions constant, nothing constant, only x_i active}; '
             'every case is called twice. quick: all tuples for arity <= 3, pairwise-complete orthogonal array '
-            'OA(289, arity, 17, 2) for arity 4, 6, 9. thorough: all tuples of a 27-value lattice for arity <= 2, all '
-            'tuples of the 13/14-value lattice for arity 3 and 4, for arity 6 and 9 the orthogonal array plus all tuples '
+            'OA(289, arity, 17, 2) for arity 4, 6, 9. thorough: all tuples of a 29-value lattice for arity <= 2, all '
+            'tuples of the 14/15-value lattice for arity 3 and 4, for arity 6 and 9 the orthogonal array plus all tuples '
             'of a 5-value core per position. evaluations = cases (tuple x mode x dig); a class is (function, mode, '
             'outcome) or (function, derivative order, finite-difference verdict). A tuple in which a single call needs '
             'more than %d ms CPU is not judged in the sharded pass; per function the first (quick) / first, middle and '
